@@ -68,7 +68,10 @@ def lift(v):
         return None
     if isinstance(v, np.ndarray):
         if v.shape == () or v.size == 1:
-            return lift(v.reshape(())[()])
+            e = np.asarray(v).reshape(())[()]  # base-class view: a 0-d unyt_quantity would index to itself
+            if isinstance(e, np.ndarray):
+                raise Unsupported("0-d array nested inside an object payload")
+            return lift(e)
         return None
     # sympy numbers
     if hasattr(v, "is_Number") and getattr(v, "is_Number", False):
@@ -432,6 +435,9 @@ class SymReal:
 
     # arithmetic ----------------------------------------------------------------
     def _b(self, o, f):
+        if isinstance(o, np.ndarray) and hasattr(o, "units"):
+            # like float.__mul__(unyt_quantity): defer to the quantity's reflected operator (keeps the unit)
+            return NotImplemented
         l = lift(o)
         if l is None:
             return NotImplemented
@@ -552,6 +558,16 @@ class SymReal:
         raise Unsupported("int() on a symbolic real")
 
     __index__ = None
+
+    # math.floor/ceil/trunc protocol: NumPy's object-dtype loops of np.floor/np.ceil/np.trunc call these
+    def __floor__(self):
+        return self.floor()
+
+    def __ceil__(self):
+        return self.ceil()
+
+    def __trunc__(self):
+        return self.trunc()
 
     def __round__(self, n=None):
         if n:
